@@ -123,6 +123,10 @@ def run(tier):
         chk.clause('C15.emptycol', 'an empty L column never joins the previous supernode (supernodes keep at least as many rows as columns)')
         for p in _drv.PRECS:
             misc.ilu_empty_column_rule(chk, 'C15.emptycol', prog, p, cfgname)
+        from ..rules import pivot as _pivot
+        chk.clause('C15.pivguard', 'ilu_?pivotL accepts the remembered pivot / the diagonal only if its magnitude is non-zero and passes the threshold')
+        for p in _drv.PRECS:
+            _pivot.ilu_threshold_guard_rule(chk, 'C15.pivguard', prog, p, cfgname)
         chk.clause('C15.qselect', 'quick-select partition: each scan and the move after it are complements (progress on ties)')
         misc.partition_complement_rule(chk, 'C15.qselect', prog, cfgname)
         if k < 9:
